@@ -374,15 +374,39 @@ func coqOpts(o s2.VerifC13Opts) string {
 	return fmt.Sprintf("(mkOpts %d %s %s %v %v)", mr, zbits(o.DistanceLimit), zbits(o.MaxError), o.IncludeInteriors, o.UseBruteForce)
 }
 
+// hookShape: OnEdge runs at every Edge call, i.e. in the middle of any query that looks at the
+// shape's edges (an inspection point inside a query, no hook in the library needed).
+type hookShape struct {
+	s2.Shape
+	OnEdge func()
+}
+
+func (h *hookShape) Edge(i int) s2.Edge {
+	if f := h.OnEdge; f != nil {
+		f()
+	}
+	return h.Shape.Edge(i)
+}
+
 func execEdgeQuery(j job, r *result) {
 	g := genEdgeQuery(j)
 	r.Setup, r.History = g.setup(), g.names()
 	idx := s2.NewShapeIndex()
 	total := 0
+	var hooks []*hookShape
 	for _, sp := range g.specs {
-		sh := sp.build()
+		sh := &hookShape{Shape: sp.build()}
+		hooks = append(hooks, sh)
 		idx.Add(sh)
 		total += sh.NumEdges()
+	}
+	// [S] the options struct a query object points at is shared with every other query object
+	// built from the same options value: it must never be written DURING a query either (an
+	// override that is restored afterwards is invisible to the before/after comparison).
+	inspect := func(f func()) {
+		for _, h := range hooks {
+			h.OnEdge = f
+		}
 	}
 	if g.prebuilt {
 		idx.Build()
@@ -436,6 +460,20 @@ func execEdgeQuery(j job, r *result) {
 			return g.newQuery(idx, g.newOptions(uu)), g.newTarget(op.T, tidx)
 		}
 		lim := deg(op.D)
+		if tg != nil {
+			expect := s2.VerifC13UserOpts(g.newOptions(u))
+			seen := false
+			inspect(func() {
+				if seen {
+					return
+				}
+				seen = true
+				inspect(nil)
+				if now := s2.VerifC13UserOpts(opts); now != expect {
+					fail("EdgeQuery.optionsWrittenDuringQuery", fmt.Sprintf("in the middle of the call (first edge looked at) the caller's options object holds %+v, the caller set %+v", now, expect))
+				}
+			})
+		}
 		switch op.K {
 		case "set":
 			switch op.Set {
@@ -530,6 +568,7 @@ func execEdgeQuery(j job, r *result) {
 				fail(kindOf(), fmt.Sprintf("answer %v; a fresh query object with the caller's options answers %v", got, want))
 			}
 		}
+		inspect(nil)
 		// the caller's options object still holds exactly what the caller set
 		have := s2.VerifC13UserOpts(opts)
 		wantO := s2.VerifC13UserOpts(g.newOptions(u))
